@@ -94,6 +94,11 @@ func runWitnesses(prop string, rs []*Rule) ([]Ob, []map[string]any) {
 		}(i, w)
 	}
 	wg.Wait()
+	for _, o := range obs {
+		if o.Status == StInfo {
+			fmt.Printf("WITNESS-SKIPPED %s: %s\n", o.Key, o.Detail)
+		}
+	}
 	return obs, logs
 }
 
